@@ -426,7 +426,7 @@ impl<'a> Sim<'a> {
                     return;
                 }
             }
-            self.nodes[i].wire.insert(peer, WirePeer { link, conn, state: WireState::Connected, inbox: radicle_node::deserializer::Deserializer::new(1024), streams: BTreeMap::new(), next_stream: 0 });
+            self.nodes[i].wire.insert(peer, WirePeer { link, conn, state: WireState::Connected, inbox: radicle_node::deserializer::Deserializer::new(1024), shadow: Vec::new(), streams: BTreeMap::new(), next_stream: 0 });
             self.nodes[i].gt.epoch_started(&peer);
             let trig = Trigger::Connected(peer);
             self.res.trace.log("connected", format!("t={} n{i} <- connected({}, {:?})", self.now - T0, self.name(&peer), link));
@@ -484,6 +484,9 @@ impl<'a> Sim<'a> {
         }
         // Wire::handle_transport_event(Data)
         let overflow = self.nodes[node].wire.get_mut(&peer).unwrap().inbox.input(&chunk).is_err();
+        if !overflow {
+            self.nodes[node].wire.get_mut(&peer).unwrap().shadow.extend_from_slice(&chunk);
+        }
         if overflow {
             self.res.hit("probe.inbox_overflow");
             self.nodes[node].gt.pending_reason.insert(peer, DisconnectReason::Session(session::Error::Misbehavior));
@@ -505,9 +508,15 @@ impl<'a> Sim<'a> {
             match r {
                 Ok(Some(frame)) => {
                     let consumed = before - self.nodes[node].wire.get(&peer).unwrap().inbox.len();
+                    let frame_bytes: Vec<u8> = {
+                        let wp = self.nodes[node].wire.get_mut(&peer).unwrap();
+                        let k = consumed.min(wp.shadow.len());
+                        wp.shadow.drain(..k).collect()
+                    };
                     match frame.data {
                         FrameData::Gossip(msg) => {
                             let kind = msg_kind(&msg);
+                            self.check_reencoding(node, &peer, &msg, &frame_bytes);
                             self.on_deliver(node, &peer, &msg, consumed);
                             let trig = Trigger::Msg { from: peer, kind };
                             self.res.trace.log(&format!("recv-{kind}"), format!("t={} n{node} <- {} {}", self.now - T0, self.name(&peer), self.describe(&msg)));
